@@ -1,3 +1,4 @@
+import WS.Lemmas.ViolHlog
 import WS.Lemmas.ViolProgram
 import WS.Lemmas.AuditGaps
 import WS.Lemmas.HdrLogic
@@ -146,9 +147,7 @@ open WS.Codec WS.ReaderDecodes WS.ReadProgram WS.CutProgram in
     or after it is ever delivered as a message, and everything delivered is byte-identical.
     PARTIAL with respect to the full statement `violation_program` (kept, commented, in
     WS/Lemmas/ViolProgram.lean; not refuted): proved when every whole message is within the read limit, and
-    without the second conjunct of the full statement (the handlers saw only control frames of the whole
-    messages — at the level of one call that is `nextReader_violation` / `read_violation_mid_message`:
-    `hlog` unchanged). -/
+    stated here for the delivery conjunct alone; `violation_program_fits_partial` below has both. -/
 theorem violation_program_fits_completed_partial (c : Conn) (hc : ReaderIdle c) (msgs : List (Nat × List PFrame))
     (hm : ∀ m ∈ msgs, (m.1 = 1 ∨ m.1 = 2) ∧ MsgShape m.1 m.2 ∧ (dataPayload m.2).length < 2 ^ 62 ∧
       (c.r.limit ≤ 0 ∨ ((dataPayload m.2).length : Int) ≤ c.r.limit))
@@ -158,6 +157,24 @@ theorem violation_program_fits_completed_partial (c : Conn) (hc : ReaderIdle c) 
     (ops : List ROp) :
     List.Sublist (completed (runProg ops c none).1) (msgs.map (fun m => (m.1, dataPayload m.2))) := by
   first | exact WS.ViolProgram.violation_program_fits_completed_partial .. | (apply WS.ViolProgram.violation_program_fits_completed_partial <;> assumption)
+
+open WS.Codec WS.ReaderDecodes WS.ReadProgram WS.CutProgram in
+/-- the full statement `violation_program` under the one remaining restriction (every whole message
+    within the read limit): BOTH conjuncts — the messages reported complete are a sublist of the whole
+    messages, AND the handlers have seen only (a prefix of) the control frames of the whole messages, in
+    wire order: nothing from the violating frame or after it is delivered or passed to a handler,
+    whatever the application calls and in whatever order -/
+theorem violation_program_fits_partial (c : Conn) (hc : ReaderIdle c) (msgs : List (Nat × List PFrame))
+    (hm : ∀ m ∈ msgs, (m.1 = 1 ∨ m.1 = 2) ∧ MsgShape m.1 m.2 ∧ (dataPayload m.2).length < 2 ^ 62 ∧
+      (c.r.limit ≤ 0 ∨ ((dataPayload m.2).length : Int) ≤ c.r.limit))
+    (b0 b1 : UInt8) (tail : Bytes)
+    (hv : Violates c.r.isServer c.r.nego false (parseHdr b0 b1))
+    (hp : c.r.buf.pending = (msgs.map (fun m => encAll c.r.isServer m.2)).flatten ++ b0 :: b1 :: tail)
+    (ops : List ROp) :
+    List.Sublist (completed (runProg ops c none).1) (msgs.map (fun m => (m.1, dataPayload m.2))) ∧
+    (runProg ops c none).2.r.hlog <+: c.r.hlog ++ (msgs.map (fun m => ctlEvents m.2)).flatten :=
+  ⟨WS.ViolProgram.violation_program_fits_completed_partial c hc msgs hm b0 b1 tail hv hp ops,
+   WS.ViolHlog.violation_program_hlog_fits_partial c hc msgs hm b0 b1 tail hv hp ops⟩
 
 /-! ### non-vacuity -/
 section NonVacuity
@@ -400,6 +417,21 @@ example : List.Sublist (completed (runProg witViolProg witViolAfter none).1) [(1
       exact ⟨Or.inl rfl, witHi_shape, by decide, Or.inl (by decide)⟩)
     0xA1 0x03 [0x61, 0x62, 0x63, 0x81, 0x02, 0x6f, 0x6b]
     (Or.inl (by decide)) (by decide) witViolProg
+
+/-- non-vacuity of `violation_program_fits_partial` (same witness): both conjuncts -/
+example : List.Sublist (completed (runProg witViolProg witViolAfter none).1) [(1, dataPayload witHi)] ∧
+    (runProg witViolProg witViolAfter none).2.r.hlog <+: witViolAfter.r.hlog ++ [] := by
+  have h := violation_program_fits_partial witViolAfter witViolAfter_idle [(1, witHi)]
+    (by
+      intro m hm
+      simp only [List.mem_cons, List.mem_nil_iff, or_false] at hm
+      subst hm
+      exact ⟨Or.inl rfl, witHi_shape, by decide, Or.inl (by decide)⟩)
+    0xA1 0x03 [0x61, 0x62, 0x63, 0x81, 0x02, 0x6f, 0x6b]
+    (Or.inl (by decide)) (by decide) witViolProg
+  have e : (([(1, witHi)] : List (Nat × List PFrame)).map (fun m => ctlEvents m.2)).flatten = [] := by decide
+  rw [e] at h
+  exact h
 
 /-- what the trace reports: "Hi" and nothing else — not the well-formed "ok" behind the violation -/
 example : completed (runProg witViolProg witViolAfter none).1 = [(1, [0x48, 0x69])] := by decide +kernel
